@@ -136,7 +136,8 @@ func loadRegions(
 	f func(region *RegionInfo) []*RegionInfo,
 ) error {
 	nextID := uint64(0)
-	endKey := regionPath(math.MaxUint64)
+	// the end key is exclusive: make sure the region with the max ID is included
+	endKey := regionPath(math.MaxUint64) + "\x00"
 
 	// Since the region key may be very long, using a larger rangeLimit will cause
 	// the message packet to exceed the grpc message size limit (4MB). Here we use
@@ -170,7 +171,8 @@ func loadRegions(
 			}
 		}
 
-		if len(res) < rangeLimit {
+		// nextID == 0 means the region with the max ID has been loaded and nextID wrapped around
+		if len(res) < rangeLimit || nextID == 0 {
 			return nil
 		}
 	}
